@@ -37,11 +37,14 @@ C19_TrafoFlows == (Req /\ C.est.ok) => SameTrafos(C.est, C.pf)
 C19_OrderInvariant == (Req /\ S.ord # "created" /\ C.ref_ord.has /\ C.est.ok /\ C.ref_ord.ok) => SameAll(C.est, C.ref_ord)
 C19_RedundancyInvariant == (Req /\ (S.red # "none" \/ S.dup # "none") /\ C.ref_red.has /\ C.est.ok /\ C.ref_red.ok)
                               => SameAll(C.est, C.ref_red)
-\* bad data: nothing removed / the largest normalised residual test passes where it is defined (no critical
-\* measurement), the chi^2 test does not fire where it has at least one degree of freedom.  rn: 1 = returned True,
-\* 0 = returned False, 2 = raised;  chi2: 1 = bad data detected, 0 = not detected, 2 = no result, 3 = raised
-C19_NoBadDataRemoved == (Req /\ C.bad.ran /\ NoCritical(M)) => (C.bad.rn = 1 /\ C.bad.removed = 0)
-C19_NoBadDataChi2 == (Req /\ C.bad.ran /\ Chi2Df(Table(S)) >= 1) => C.bad.chi2 = 0
+\* bad data on the exact set.  rn: 1 = remove_bad_data returned True, 0 = returned False, 2 = raised; removed = rows it
+\* deleted from net.measurement;  chi2: 1 = chi2_analysis reports bad data, 0 = none, 2 = no result, 3 = raised
+C19_NoBadDataRemoved == (Req /\ C.bad.ran) => C.bad.removed = 0
+C19_NoBadDataChi2 == (Req /\ C.bad.ran) => C.bad.chi2 # 1
+\* where the largest normalised residual test is defined (no critical measurement) it must pass
+C19_RnTestPasses == (Req /\ C.bad.ran /\ NoCritical(M)) => C.bad.rn = 1
+\* feature classes of a set, used for the structural keys of findings: has a critical measurement / chi^2 test has no
+\* degree of freedom (both computed by the spec; carried in C.cls by the harness from the model's out record)
 \* other algorithms that accept the set and report success must give the same state
 AltOK(a) == (Req /\ a.acc /\ a.ok) => SameBus(a, C.pf)
 C19_AltAlgorithms == \A k \in DOMAIN C.alts : AltOK(C.alts[k])
@@ -51,5 +54,4 @@ C19_Conf_TableCreated == Bind(Table(S), LAMBDA tab : C.rows = Rows(tab))
 C19_Conf_ZLayout == C.z.avail => Bind(Table(S), LAMBDA tab : C.z.idx = ZIdx(tab))
 C19_Conf_ZWeights == C.z.avail => Bind(Table(S), LAMBDA tab : C.z.w4 = ZW4(tab))
 C19_Conf_CountCheck == Bind(Table(S), LAMBDA tab : (~CountOK(tab)) <=> (C.est.exc = "UserWarning"))
-C19_Conf_AltSuccess == \A k \in DOMAIN C.alts : (Req /\ C.alts[k].acc) => C.alts[k].ok
 =============================================================================
